@@ -3,7 +3,7 @@
 package main
 
 // C03, statement model (JsExpr/StmtModel.v, entry run_xstmt): block, var, if / else, while (also under
-// Options.WhileToFor), do-while, throw, break / continue, labelled, expression and empty statements against
+// Options.WhileToFor), do-while, for(;;), throw, break / continue, labelled, expression and empty statements against
 // js.Parse: the String() of every statement of the program.
 
 import (
@@ -86,8 +86,8 @@ func (g *c03StmtGen) end(ts []c03Jtok) ([]c03Jtok, bool) {
 // stmt returns the tokens of one statement and whether the next token must start a new line
 func (g *c03StmtGen) stmt(depth int) ([]c03Jtok, bool) {
 	r := g.r
-	k := r.Intn(12)
-	if depth <= 0 && k < 5 {
+	k := r.Intn(13)
+	if depth <= 0 && (k < 5 || k == 12) {
 		k = 5 + r.Intn(7)
 	}
 	cond := func() []c03Jtok { return c03Cat(c03TkLP, g.expr(), c03TkRP) }
@@ -151,6 +151,59 @@ func (g *c03StmtGen) stmt(depth int) ([]c03Jtok, bool) {
 		return g.end(ts)
 	case 8: // empty
 		return []c03Jtok{c03TkSemi}, false
+	case 12: // for ( init ; cond ; post ) body   — the initialiser is parsed with the In flag off
+		noIn := func() []c03Jtok {
+			for {
+				e := g.expr()
+				top := false
+				for _, t := range e {
+					if t.ty == js.InToken {
+						top = true
+					}
+				}
+				if !top {
+					return e
+				}
+				if r.Bool() {
+					return c03Cat(c03TkLP, e, c03TkRP) // `in` inside parentheses is fine
+				}
+			}
+		}
+		ts := c03Cat(g.kw(js.ForToken), c03TkLP)
+		switch r.Intn(3) {
+		case 0:
+			ts = c03Cat(ts, noIn())
+		case 1:
+			ts = append(ts, g.kw(js.VarToken))
+			for i, n := 0, 1+r.Intn(2); i < n; i++ {
+				if i > 0 {
+					ts = append(ts, c03TkComma)
+				}
+				ts = append(ts, []c03Jtok{c03TkA, c03TkB, c03Jt(js.IdentifierToken, "i")}[r.Intn(3)])
+				if r.Bool() {
+					e := noIn()
+					if len(e) == 3 && e[1].ty == js.CommaToken {
+						e = e[:1]
+					}
+					ts = c03Cat(ts, js.EqToken, e)
+				}
+			}
+		}
+		ts = append(ts, c03TkSemi)
+		if r.Bool() {
+			ts = c03Cat(ts, g.expr())
+		}
+		ts = append(ts, c03TkSemi)
+		if r.Bool() {
+			ts = c03Cat(ts, g.expr())
+		}
+		ts = append(ts, c03TkRP)
+		switch r.Intn(3) {
+		case 0:
+			return append(ts, c03TkSemi), false
+		default:
+			return c03Cat(ts, sub()), false
+		}
 	}
 	return g.end(g.expr())
 }
@@ -205,8 +258,41 @@ func c03StmtGenCases(r *Rng, tier string, emit func(Case)) {
 // c03StmtBraceOK: every '{' stands where a statement starts (in expression position it would be an object literal,
 // which is outside the model)
 func c03StmtBraceOK(ts []c03Jtok) bool {
+	// for ( ... in / of ...: the for-in / for-of forms are outside the model
+	for i := 0; i+1 < len(ts); i++ {
+		if ts[i].ty == js.ForToken && ts[i+1].ty == js.OpenParenToken {
+			d := 0
+			for j := i + 1; j < len(ts); j++ {
+				switch ts[j].ty {
+				case js.OpenParenToken:
+					d++
+				case js.CloseParenToken:
+					d--
+				}
+				if d <= 0 || d == 1 && ts[j].ty == js.SemicolonToken {
+					break
+				}
+				if d == 1 && (ts[j].ty == js.InToken || ts[j].ty == js.OfToken) {
+					return false
+				}
+			}
+		}
+	}
+	depth := 0
 	for i, t := range ts {
-		if t.ty != js.OpenBraceToken || i == 0 {
+		switch t.ty {
+		case js.OpenParenToken:
+			depth++
+		case js.CloseParenToken:
+			depth--
+		}
+		if t.ty != js.OpenBraceToken {
+			continue
+		}
+		if depth > 0 {
+			return false // inside parentheses (the head of a for statement): an object literal
+		}
+		if i == 0 {
 			continue
 		}
 		switch ts[i-1].ty {
@@ -248,7 +334,9 @@ var c03StmtModel = &Model{Name: "xstmt", Gen: c03StmtGenCases, Impl: c03StmtImpl
 	var out []Case
 	for _, s := range prattShrink(c) {
 		s.Fn = "xstmt"
-		out = append(out, s)
+		if _, _, ts := c03DecToks(s.Args); c03StmtBraceOK(ts) {
+			out = append(out, s)
+		}
 	}
 	return out
 }, Class: c03StmtClass}
